@@ -74,6 +74,14 @@ func namedKind(k string) bool {
 	return false
 }
 
+// mustExist: obligations whose absence is itself an alarm (the clause that
+// carried the property is gone). Loop invariants and variants may legitimately
+// disappear when a loop is merged or removed; the postconditions they served
+// must still be discharged.
+func mustExist(name string) bool {
+	return strings.HasPrefix(name, "post#") || strings.HasPrefix(name, "lemma/")
+}
+
 type violation struct {
 	Unit, Obligation, Reason, Replay string
 	Confirmed                        bool
@@ -164,6 +172,9 @@ func report(o *Options, res *runResult, smtDir string, wall time.Duration) int {
 			if !unitPresent[unit] {
 				continue // reported as target-missing
 			}
+			if !mustExist(name) {
+				continue
+			}
 			if k := isKnown(unit, name); k != nil {
 				continue
 			}
@@ -223,7 +234,7 @@ func report(o *Options, res *runResult, smtDir string, wall time.Duration) int {
 	if updateExpected {
 		ef := expectedFile{Property: o.Prop}
 		for _, ob := range res.obls {
-			if ob.Status == "discharged" && namedKind(ob.Kind) {
+			if ob.Status == "discharged" && !ob.Cover {
 				ef.Obligations = append(ef.Obligations, ob.Unit+"::"+ob.Name)
 			}
 		}
